@@ -18,6 +18,7 @@ package main
 // real code must report no change.
 
 import (
+	"encoding/json"
 	"fmt"
 	"os"
 	"path/filepath"
@@ -344,6 +345,40 @@ func genPorts(rng *RNG, key string) string {
 	return fmt.Sprintf("%s~r~%s~%s~%d~%s", key, r[0], r[1], z, b2s(rng.Bool()))
 }
 
+// masks for mark 0x10 (value inside the mask: for `--set-mark v/m` the kernel stores the mask v|m)
+var markMasks = []string{"f0", "30", "ff", "ffffffff"}
+
+// genMark: `mk~hex~mask~xmark~text`.  masked = a mask other than the default, spelled
+// `--set-mark 0x10/0xf0`, `--set-mark 16/0xf0` or exactly as the kernel prints it (`--set-xmark 0x10/0xf0`).
+func genMark(rng *RNG, masked bool) string {
+	if masked {
+		m := markMasks[rng.Intn(3)]
+		switch rng.Intn(4) {
+		case 0:
+			return "mk~10~" + m + "~1~0x10/0x" + m
+		case 1:
+			return "mk~10~" + m + "~0~16/0x" + m
+		default:
+			return "mk~10~" + m + "~0~0x10/0x" + m
+		}
+	}
+	v := Pick(rng, [][2]string{{"1", "1"}, {"1", "0x01"}, {"f", "15"}, {"f", "0x0F"}, {"f", "0x0f/0xffffffff"}, {"f", "0X0F/0XFFFFFFFF"}, {"10", "16"}, {"10", "020"},
+		{"10", "0x10"}, {"7fffffff", "2147483647"}, {"0", "0"}, {"0", "0x0"}, {"2a", "42"}})
+	return fmt.Sprintf("mk~%s~ffffffff~%s~%s", v[0], b2s(rng.Bool()), v[1])
+}
+
+// otherMask gives the MARK option of a device rule another mask (the device is always in kernel spelling).
+func otherMask(rng *RNG, opt string) string {
+	f := strings.Split(opt, "~")
+	for {
+		m := Pick(rng, markMasks)
+		if m != f[2] {
+			f[2] = m
+			return strings.Join(f, "~")
+		}
+	}
+}
+
 type ruleOpts struct {
 	unnegSyn, stateWithProtoMatch bool
 }
@@ -369,10 +404,7 @@ func genRule(rng *RNG, ro ruleOpts) []string {
 	case kind < 14:
 		o = append(o, "j~LOG", "ll~"+Pick(rng, []string{"7", "7", "4", "6"})+"~"+b2s(rng.Bool()))
 	case kind < 22:
-		v := Pick(rng, [][2]string{{"1", "1"}, {"1", "0x01"}, {"f", "15"}, {"f", "0x0F"}, {"f", "0x0f/0xffffffff"}, {"f", "0X0F/0XFFFFFFFF"}, {"10", "16"}, {"10", "020"},
-			{"7fffffff", "2147483647"}, {"0", "0"}, {"0", "0x0"}, {"2a", "42"}})
-		x := rng.Bool()
-		o = append(o, "j~MARK", fmt.Sprintf("mk~%s~%s~%s", v[0], b2s(x), v[1]))
+		o = append(o, "j~MARK", genMark(rng, rng.Chance(35)))
 	case kind < 28:
 		ip, _ := splitDst(Pick(rng, ipPool))
 		o = append(o, "j~SNAT", "ts~"+ip)
@@ -480,6 +512,22 @@ func mutateRS(rng *RNG, tgt []aTable, res *Result, allowExtraTable bool) []aTabl
 		res.Count("ipt-mutation:none")
 		return dev
 	}
+	// a MARK rule that differs only in the mask
+	if rng.Chance(35) {
+		for ti := range dev {
+			for ci := range dev[ti].Chains {
+				for _, r := range dev[ti].Chains[ci].Rules {
+					for j := range r {
+						if strings.HasPrefix(r[j], "mk~") {
+							r[j] = otherMask(rng, r[j])
+							res.Count("ipt-mutation:mark-mask")
+							return dev
+						}
+					}
+				}
+			}
+		}
+	}
 	t := &dev[rng.Intn(len(dev))]
 	c := &t.Chains[rng.Intn(len(t.Chains))]
 	switch k := rng.Intn(100); {
@@ -509,6 +557,8 @@ func mutateRS(rng *RNG, tgt []aTable, res *Result, allowExtraTable bool) []aTabl
 			r[j] = genPorts(rng, r[j][:2])
 		case strings.HasPrefix(r[j], "s~") || strings.HasPrefix(r[j], "d~"):
 			r[j] = genAddr(rng, r[j][:1])
+		case strings.HasPrefix(r[j], "mk~"):
+			r[j] = otherMask(rng, r[j])
 		default:
 			c.Rules[i] = append(r[:j], r[j+1:]...)
 			if len(c.Rules[i]) == 0 {
@@ -828,6 +878,29 @@ func runC05(ctx *Ctx) *Result {
 			os.Exit(2)
 		}
 		runCase(&c)
+		// a replay answers "does THIS input still violate the property beyond the listed classes":
+		// failures of a class listed as known in known/C05.jsonl are noted, not reported
+		known := map[string]bool{}
+		if data, err := os.ReadFile(filepath.Join(ctx.Verif, "known", "C05.jsonl")); err == nil {
+			for _, l := range strings.Split(string(data), "\n") {
+				var e struct {
+					Status    string         `json:"status"`
+					Signature map[string]any `json:"signature"`
+				}
+				if json.Unmarshal([]byte(l), &e) == nil && e.Status == "known" {
+					known[fmt.Sprint(e.Signature["pred"])] = true
+				}
+			}
+		}
+		var keep []Failure
+		for _, f := range res.Failures {
+			if known[fmt.Sprint(f.Sig["pred"])] {
+				res.Notes = append(res.Notes, "known finding on this input: "+fmt.Sprint(f.Sig["pred"]))
+			} else {
+				keep = append(keep, f)
+			}
+		}
+		res.Failures = keep
 		return res
 	}
 
@@ -866,6 +939,32 @@ func runC05(ctx *Ctx) *Result {
 			c.DevRoutes, c.TgtRoutes, c.Noise = genRoutes(rng, routeGenOpts{multiHop: rng.Chance(25), dupTarget: rng.Chance(8), max: 6}, res)
 			c.TgtRS = genRS(rng, ruleOpts{})
 			c.DevRS = mutateRS(rng, c.TgtRS, res, false)
+		}
+		runCase(c)
+	}
+	// MARK rules whose device counterpart differs only in the mask (or not at all)
+	for i := 0; i < ctx.N(80, 2000); i++ {
+		rng := base.Fork()
+		c := &c05Case{Abstract: true, Names: rng.Bool(), Stream: "mark-mask"}
+		rules := [][]string{}
+		n := rng.Intn(3)
+		for j := 0; j < n; j++ {
+			rules = append(rules, genRule(rng, ruleOpts{}))
+		}
+		mk := []string{"j~MARK", genMark(rng, rng.Chance(60)), "p~n~tcp~0~0", genPorts(rng, "dp")}
+		Shuffle(rng, mk)
+		pos := rng.Intn(len(rules) + 1)
+		rules = append(rules[:pos], append([][]string{mk}, rules[pos:]...)...)
+		c.TgtRS = []aTable{{Name: "mangle", Chains: []aChain{{Name: "PREROUTING", Policy: "ACCEPT", Rules: rules}}}}
+		c.DevRS = cloneRS(c.TgtRS)
+		if rng.Chance(75) {
+			r := c.DevRS[0].Chains[0].Rules[pos]
+			for j := range r {
+				if strings.HasPrefix(r[j], "mk~") {
+					r[j] = otherMask(rng, r[j])
+				}
+			}
+			res.Count("ipt-mutation:mark-mask")
 		}
 		runCase(c)
 	}
@@ -989,7 +1088,7 @@ func runC05(ctx *Ctx) *Result {
 		}
 		for _, x := range bools {
 			for _, v := range [][2]string{{"1", "1"}, {"1", "0x01"}, {"f", "15"}, {"f", "0X0F"}, {"f", "0x0f/0xffffffff"}, {"f", "0XF/0XFFFFFFFF"}, {"10", "020"}, {"7fffffff", "2147483647"}, {"0", "0"}} {
-				one = append(one, []string{"j~MARK", "mk~" + v[0] + "~" + x + "~" + v[1]})
+				one = append(one, []string{"j~MARK", "mk~" + v[0] + "~ffffffff~" + x + "~" + v[1]})
 			}
 		}
 		sts := []string{"E", "R", "N", "I", "U"}
@@ -999,6 +1098,20 @@ func runC05(ctx *Ctx) *Result {
 					if i != j && j != k && i != k {
 						one = append(one, []string{"j~ACCEPT", "m~state", "st~" + sts[i] + sts[j] + sts[k]})
 					}
+				}
+			}
+		}
+		// marks with masks: every target mask and spelling against every device mask
+		for _, m1 := range markMasks {
+			texts := []string{"0~0x10/0x" + m1, "0~16/0x" + m1, "1~0x10/0x" + m1}
+			if m1 == "ffffffff" {
+				texts = append(texts, "0~16", "1~0x10")
+			}
+			for _, tx := range texts {
+				for _, m2 := range markMasks {
+					tg := []aTable{{Name: "mangle", Chains: []aChain{{Name: "PREROUTING", Policy: "ACCEPT", Rules: [][]string{{"j~MARK", "mk~10~" + m1 + "~" + tx, "p~n~tcp~0~0"}}}}}}
+					dv := []aTable{{Name: "mangle", Chains: []aChain{{Name: "PREROUTING", Policy: "ACCEPT", Rules: [][]string{{"j~MARK", "mk~10~" + m2 + "~0~16", "p~n~tcp~0~0"}}}}}}
+					runCase(&c05Case{Stream: "exhaustive-mark-masks", Abstract: true, TgtRS: tg, DevRS: dv})
 				}
 			}
 		}
@@ -1058,14 +1171,23 @@ func runC05(ctx *Ctx) *Result {
 }
 
 // spellingClass names the listed class of a spelling difference: the first line of the script must
-// name the option the class is about, and the target must contain a rule of that class.
+// name the option the class is about (the `iptables differs at` line), and the target must contain a rule of that class.
 func spellingClass(pred, why, script string) string {
-	first, _, _ := strings.Cut(script, "\n")
+	first := ""
+	for _, l := range strings.Split(script, "\n") {
+		if strings.HasPrefix(l, "iptables differs at") {
+			first = l
+			break
+		}
+	}
 	switch {
 	case strings.Contains(why, "repeated_option_key") && (strings.Contains(first, "-m<->") || strings.Contains(first, "<->-m") || strings.Contains(first, ":-m:")):
 		return "repeated_match_option_last_wins"
 	case strings.Contains(why, "unnegated_syn") && strings.Contains(first, "--tcp-flags<->--syn"):
 		return "unnegated_syn_not_normalised"
+	case strings.Contains(why, "mark_with_mask") && (strings.Contains(first, "[options: --set-xmark<->--set-mark]") || strings.Contains(first, ":--set-xmark:[")):
+		// `--set-mark v/m` against the kernel's `--set-xmark v/m`, or `--set-xmark` texts that differ only in spelling
+		return "set_mark_mask_not_normalised"
 	case why != "":
 		return pred + "(outside grammar: " + why + ")"
 	}
@@ -1149,11 +1271,24 @@ func witnesses() []*c05Case {
 		{Stream: "witness", Abstract: true,
 			TgtRS: filter([]string{"j~ACCEPT", "s~n~10.1.1.1~32~0"}),
 			DevRS: append(filter([]string{"j~ACCEPT", "s~n~10.1.1.1~32~0"}), aTable{Name: "mangle", Chains: []aChain{{Name: "PREROUTING", Policy: "ACCEPT"}}})},
+		// MARK with a non-default mask in `--set-mark` spelling (F-C05k): device with the default mask (a real
+		// difference: must be reported), with the same mask (kernel prints `--set-xmark 0x10/0xf0`), with another mask
+		{Stream: "witness", Abstract: true, TgtRS: filter([]string{"j~MARK", "mk~10~f0~0~0x10/0xf0", "p~n~tcp~0~0"}),
+			DevRS: filter([]string{"j~MARK", "mk~10~ffffffff~0~16", "p~n~tcp~0~0"})},
+		{Stream: "witness", Abstract: true, TgtRS: filter([]string{"j~MARK", "mk~10~f0~0~0x10/0xf0", "p~n~tcp~0~0"}),
+			DevRS: filter([]string{"j~MARK", "mk~10~f0~0~16", "p~n~tcp~0~0"})},
+		{Stream: "witness", Abstract: true, TgtRS: filter([]string{"j~MARK", "mk~10~30~0~16/0x30", "p~n~tcp~0~0"}),
+			DevRS: filter([]string{"j~MARK", "mk~10~f0~0~16", "p~n~tcp~0~0"})},
+		// default mask in the target, another mask on the device; and the kernel's own spelling in the target
+		{Stream: "witness", Abstract: true, TgtRS: filter([]string{"j~MARK", "mk~10~ffffffff~0~16", "p~n~tcp~0~0"}),
+			DevRS: filter([]string{"j~MARK", "mk~10~30~0~16", "p~n~tcp~0~0"})},
+		{Stream: "witness", Abstract: true, TgtRS: filter([]string{"j~MARK", "mk~10~f0~1~0x10/0xf0", "p~n~tcp~0~0"}),
+			DevRS: filter([]string{"j~MARK", "mk~10~ffffffff~0~16", "p~n~tcp~0~0"})},
 		// spellings that must compare equal
 		{Stream: "witness", Abstract: true, Names: true,
-			TgtRS: filter([]string{"j~MARK", "mk~f~1~0X0F/0XFFFFFFFF", "p~b~tcp~1~0"}, []string{"p~n~vrrp~1~1", "s~a~10.1.1.1~32~0", "j~c1"},
+			TgtRS: filter([]string{"j~MARK", "mk~f~ffffffff~1~0X0F/0XFFFFFFFF", "p~b~tcp~1~0"}, []string{"p~n~vrrp~1~1", "s~a~10.1.1.1~32~0", "j~c1"},
 				[]string{"p~n~udp~1~0", "sp~r~0~1023~2~1", "dp~r~1024~65535~0~1", "m~UDP", "g~c2"}),
-			DevRS: filter([]string{"j~MARK", "mk~f~0~15", "p~b~tcp~0~0"}, []string{"p~n~vrrp~0~0", "s~b~10.1.1.1~32~1", "j~c1"},
+			DevRS: filter([]string{"j~MARK", "mk~f~ffffffff~0~15", "p~b~tcp~0~0"}, []string{"p~n~vrrp~0~0", "s~b~10.1.1.1~32~1", "j~c1"},
 				[]string{"p~n~udp~0~0", "sp~r~0~1023~0~0", "dp~r~1024~65535~0~0", "g~c2"})},
 	}
 }
